@@ -79,6 +79,34 @@ def make_trace(seed, tier):
             "max_ops": r.choice([6, 10, 16]), "ops": None}
 
 
+class ProducerFailed(Exception):
+    """a preparing operation borrowed from another property failed: the op is abandoned (counted, not judged)"""
+
+
+class Producer:
+    """Context manager around preparing operations (dataset construction, filter application,
+    hierarchy refresh, temporary features): they belong to other properties and are executed but
+    not judged here."""
+
+    def __init__(self, world, what, entry=None):
+        self.w, self.what, self.entry = world, what, entry
+
+    def __enter__(self):
+        return self
+
+    def __exit__(self, et, ev, tb):
+        from dst.ctx import StopRun
+        if et is None:
+            return False
+        if issubclass(et, (StopRun, KeyboardInterrupt, SystemExit, GeneratorExit, MemoryError)):
+            return False
+        self.w.ctx.count("skipped_producer_" + self.what)
+        self.w.ctx.log("a", f"producer {self.what} failed: {et.__name__}")
+        if self.entry is not None:
+            self.w.mark_broken(self.entry)
+        raise ProducerFailed(self.what) from None
+
+
 class LazyStack:
     """An image stack that can be indexed (integers, slices, index arrays) but offers no
     ``__array__`` — like the image column of the tdms format; the exporter documents that it
@@ -211,13 +239,20 @@ class World:
         ds = e["ds"]
         with warnings.catch_warnings():
             warnings.simplefilter("ignore")
-            with self.ctx.sut("C02.prepare", sig={"what": why, "kind": e["kind"]}):
+            with Producer(self, why, e):
                 if e["kind"] == "hier":
                     ds.rejuvenate()
                 else:
                     ds.apply_filter()
         self.mark_applied(e)
         e["dirty"] = False
+
+    def mark_broken(self, e):
+        """a preparing operation on e failed half-way: e and its descendants are not used any more"""
+        for d in self.pop:
+            if any(a is e for a in self.chain(d)):
+                d["broken"] = True
+        e["broken"] = True
 
     def sync(self, e):
         if e["kind"] == "hier" and e["stale"]:
@@ -329,11 +364,17 @@ class World:
         k = op["k"]
         if k != "new" and not self.pop:
             return
-        getattr(self, "do_" + k)(op)
+        try:
+            getattr(self, "do_" + k)(op)
+        except ProducerFailed:
+            pass
         self.ctx.clock.advance(float(op.get("dt", 0)))
 
     def entry(self, op):
-        return self.pop[op["src"] % len(self.pop)]
+        e = self.pop[op["src"] % len(self.pop)]
+        if e.get("broken"):
+            raise ProducerFailed("broken")
+        return e
 
     # ---- sources ----
     def build_model(self, op):
@@ -377,7 +418,7 @@ class World:
     def set_temps(self, ds, m, op, n):
         import dclab
         for f, v in self.temp_data(op, n).items():
-            with self.ctx.sut("C02.prepare", sig={"what": "set_temporary_feature"}):
+            with Producer(self, "set_temporary_feature"):
                 dclab.set_temporary_feature(ds, f, v.copy())
             m.feats[f] = v
 
@@ -416,7 +457,7 @@ class World:
                         d[f] = v.copy()
                 if kind == "lazy" and "image" in d:
                     d["image"] = LazyStack(d["image"])
-                with ctx.sut("C02.prepare", sig={"what": "new_dict"}):
+                with Producer(self, "new_dict"):
                     ds = dclab.new_dataset(d)
                     for sec, kv in m.meta.items():
                         for key, val in kv.items():
@@ -428,7 +469,7 @@ class World:
                         t["attrs"] = {}
             elif kind == "hdf5":
                 p = self.dir / f"{tag}.rtdc"
-                with ctx.sut("C02.prepare", sig={"what": "write_model"}):
+                with Producer(self, "write_model"):
                     gen.write_model(m, p, compression=["zstd", "none", "gzip"][op["dseed"] % 3])
                     ds = dclab.new_dataset(p)
             else:  # basin-backed
@@ -436,7 +477,7 @@ class World:
                 po = self.dir / f"{tag}_origin.rtdc"
                 pr = self.dir / f"{tag}_ref.rtdc"
                 own = [f for f in m.scalar_names][:max(1, len(m.scalar_names) // 2)]
-                with ctx.sut("C02.prepare", sig={"what": "write_basin"}):
+                with Producer(self, "write_basin"):
                     mo = m.copy()
                     mo.logs, mo.tables = {"origin-log": ["only in the origin"]}, {}
                     gen.write_model(mo, po)
@@ -487,7 +528,7 @@ class World:
             return
         with warnings.catch_warnings():
             warnings.simplefilter("ignore")
-            with ctx.sut("C02.prepare", sig={"what": "open_tdms"}):
+            with Producer(self, "open_tdms"):
                 ds = dclab.new_dataset(paths[0])
                 n = len(ds)
                 m = gen.ModelDataset()
@@ -525,7 +566,7 @@ class World:
         self.sync(par)
         with warnings.catch_warnings():
             warnings.simplefilter("ignore")
-            with ctx.sut("C02.prepare", sig={"what": "new_child", "kind": par["kind"]}):
+            with Producer(self, "new_child"):
                 ch = dclab.new_dataset(par["ds"])
         self.counter += 1
         e = {"ds": ch, "kind": "hier", "model": None, "n": None, "parent": par, "stale": False, "tag": f"s{self.counter:02d}",
@@ -592,7 +633,7 @@ class World:
         pts = np.column_stack(pts)
         with warnings.catch_warnings():
             warnings.simplefilter("ignore")
-            with self.ctx.sut("C02.prepare", sig={"what": "polygon"}):
+            with Producer(self, "polygon", e):
                 if e.get("poly") is not None:
                     e["ds"].polygon_filter_rm(e["poly"])
                 pf = dclab.PolygonFilter(axes=(fx, fy), points=pts, inverted=bool(op["inverted"]))
